@@ -616,9 +616,18 @@ func (r *rs) r1() {
 	if consume < 4 || unread < 1 || funcs < 5 {
 		c.Undecidedf("instances", "R1.account", token.NoPos, "found %d consuming and %d un-consuming sites in %d functions; 4, 1 and 5 were confirmed by hand", consume, unread, funcs)
 	}
-	// offset starts at 0
+	// offset starts at 0: every place that makes a Decoder - a composite literal, or a call of a function
+	// of the package that returns one it has just built (a constructor; the call is then a site of its own)
 	lits := 0
+	type ctorInfo struct {
+		verdict string // "zero", "bad", "param", "unknown"
+		param   int    // for "param": the index of the parameter the offset is taken from
+		k       int64  // for "bad"
+		obj     *types.Func
+	}
+	ctors := map[*types.Func]*ctorInfo{}
 	for _, fd := range r.decls() {
+		self, _ := info.Defs[fd.Name].(*types.Func)
 		core.InspectAll(fd.Body, func(m ast.Node) bool {
 			cl, ok := m.(*ast.CompositeLit)
 			if !ok || core.NamedTypeName(info.TypeOf(cl)) != "Decoder" {
@@ -637,18 +646,79 @@ func (r *rs) r1() {
 			}
 			lits++
 			key := "init/" + fd.Name.Name
+			ci := &ctorInfo{verdict: "unknown", obj: self}
 			if v == nil {
+				ci.verdict = "zero"
 				c.Okf("R1.init", key, cl.Pos(), "offset left at its zero value")
 			} else if k, ok := core.IntConst(info, v); ok {
+				ci.verdict, ci.k = "zero", k
+				if k != 0 {
+					ci.verdict = "bad"
+				}
 				c.Check("R1.init", key, cl.Pos(), k == 0, fmt.Sprintf("a new Decoder must start at offset 0 (found %d): every reported position would be shifted by that amount", k))
 			} else {
-				c.Undecidedf("R1.init", key, cl.Pos(), "initial offset %s is not a constant", c.Src(v))
+				// the offset handed in by the caller: judged where the constructor is called
+				isParam := false
+				if fd.Type.Params != nil {
+					idx := 0
+					for _, f := range fd.Type.Params.List {
+						for _, nm := range f.Names {
+							if flow.IsObj(info, info.Defs[nm])(unconv(info, v)) {
+								ci.verdict, ci.param, isParam = "param", idx, true
+							}
+							idx++
+						}
+					}
+				}
+				if isParam {
+					c.Okf("R1.init", key, cl.Pos(), "the initial offset is the constructor's parameter: checked at its calls")
+				} else {
+					c.Undecidedf("R1.init", key, cl.Pos(), "initial offset %s is not a constant", c.Src(v))
+				}
+			}
+			// a function that returns Decoders it builds is a constructor
+			if self != nil {
+				if sig, ok := self.Type().(*types.Signature); ok && sig.Results().Len() >= 1 && core.NamedTypeName(sig.Results().At(0).Type()) == "Decoder" {
+					ctors[self] = ci
+				}
 			}
 			return true
 		})
 	}
+	for _, fd := range r.decls() {
+		self, _ := info.Defs[fd.Name].(*types.Func)
+		n := 0
+		for _, call := range flow.FindCalls(fd.Body, func(call *ast.CallExpr) bool {
+			f := core.CalleeFunc(info, call)
+			return f != nil && ctors[f] != nil && f != self
+		}) {
+			ci := ctors[core.CalleeFunc(info, call)]
+			lits++
+			n++
+			key := "init/" + fd.Name.Name
+			if n > 1 {
+				key = fmt.Sprintf("%s#%d", key, n)
+			}
+			switch ci.verdict {
+			case "zero":
+				c.Okf("R1.init", key, call.Pos(), "built by %s, whose Decoder starts at offset 0", ci.obj.Name())
+			case "bad":
+				c.Failf("R1.init", key, call.Pos(), "built by %s, whose Decoder starts at offset %d, not 0: every reported position would be shifted by that amount", ci.obj.Name(), ci.k)
+			case "param":
+				if ci.param < len(call.Args) {
+					if k, ok := core.IntConst(info, call.Args[ci.param]); ok {
+						c.Check("R1.init", key, call.Pos(), k == 0, fmt.Sprintf("a new Decoder must start at offset 0 (%s is called with %d): every reported position would be shifted by that amount", ci.obj.Name(), k))
+						continue
+					}
+				}
+				c.Undecidedf("R1.init", key, call.Pos(), "the initial offset handed to %s is not a constant", ci.obj.Name())
+			default:
+				c.Undecidedf("R1.init", key, call.Pos(), "built by %s, whose initial offset is not decided", ci.obj.Name())
+			}
+		}
+	}
 	if lits < 2 {
-		c.Undecidedf("instances", "R1.init", token.NoPos, "only %d Decoder literals found, 2 confirmed by hand", lits)
+		c.Undecidedf("instances", "R1.init", token.NoPos, "only %d Decoder construction sites found, 2 confirmed by hand", lits)
 	}
 	// MustDecodeOpt reports the decoder's own offset
 	if fn := r.inl.Fn(c.Func(pkg, "", "MustDecodeOpt")); fn != nil {
